@@ -221,3 +221,35 @@ pub const TAG_ENCRYPT: u64 = 96;
 pub const TAG_ENCRYPT0: u64 = 16;
 pub const TAG_MAC: u64 = 97;
 pub const TAG_MAC0: u64 = 17;
+
+/// `RegisteredLabel<T>::from_slice` of the integer `i` for registry `r`: Some(value it decoded to), None if rejected.
+pub fn crate_decode_reg_label(r: Reg, i: i64) -> Option<i64> {
+    use coset::CborSerializable;
+    let b = crate::rcbor::det(&crate::rcbor::Item::int(i));
+    macro_rules! f {
+        ($ty:ident) => {
+            match crate::mon::guard(|| coset::RegisteredLabel::<iana::$ty>::from_slice(&b)) {
+                Ok(Ok(coset::RegisteredLabel::Assigned(v))) => Some(v.to_i64()),
+                _ => None,
+            }
+        };
+    }
+    match r {
+        Reg::HeaderParameter => f!(HeaderParameter),
+        Reg::HeaderAlgorithmParameter => f!(HeaderAlgorithmParameter),
+        Reg::Algorithm => f!(Algorithm),
+        Reg::KeyParameter => f!(KeyParameter),
+        Reg::OkpKeyParameter => f!(OkpKeyParameter),
+        Reg::Ec2KeyParameter => f!(Ec2KeyParameter),
+        Reg::RsaKeyParameter => f!(RsaKeyParameter),
+        Reg::SymmetricKeyParameter => f!(SymmetricKeyParameter),
+        Reg::HssLmsKeyParameter => f!(HssLmsKeyParameter),
+        Reg::WalnutDsaKeyParameter => f!(WalnutDsaKeyParameter),
+        Reg::KeyType => f!(KeyType),
+        Reg::EllipticCurve => f!(EllipticCurve),
+        Reg::KeyOperation => f!(KeyOperation),
+        Reg::CborTag => f!(CborTag),
+        Reg::CoapContentFormat => f!(CoapContentFormat),
+        Reg::CwtClaimName => f!(CwtClaimName),
+    }
+}
